@@ -91,6 +91,12 @@ def report_crash(run, m, line, meta, info, layer):
         run.known_finding("C04-generated-alphabet-shift", line)
         run.count("known_C04-generated-alphabet-shift")
         return
+    # an abort prints no sanitizer frames: the assertion text is what there is
+    if rc == -6 and meta["syn"] == "xer" and "OCTET_STRING__convert_entrefs" in (err or "") and "Assertion" in (err or "") and "val > 0" in (err or "") \
+            and re.search(rb"&#x?0*;", meta.get("data") or b""):
+        run.known_finding("C04-xer-charref-zero-assert", line)
+        run.count("known_C04-xer-charref-zero-assert")
+        return
     how = "did not terminate within its CPU budget (hang)" if rc == 99 else "died (rc=%s, %s): sanitizer report, abort or signal" % (rc, what)
     run.violation("crash:%s:%s" % (layer, (site[0] if site else what)),
                   {"what": "decoder process %s on a %s input" % (how, meta["kind"]),
@@ -396,6 +402,28 @@ END
 """
 
 
+# the text string types whose XER decoder converts character references (OCTET_STRING__convert_entrefs), with the
+# references at the case splits of OS__strtoent put directly into their text
+CHARREF_TEXT = """WX DEFINITIONS AUTOMATIC TAGS ::= BEGIN
+  XU ::= UTF8String
+  XI ::= IA5String
+  XB ::= BMPString
+  XV ::= UniversalString
+  XQ ::= SEQUENCE { a UTF8String, b VisibleString OPTIONAL, ... }
+END
+"""
+
+
+def charref_inputs(tn):
+    out = []
+    for f in CHARREFS:
+        for text in (f, b"a" + f + b"b", f + f):
+            body = (b"<a>" + text + b"</a><b>" + text + b"</b>") if tn == "XQ" else text
+            out.append(b"<" + tn.encode() + b">" + body + b"</" + tn.encode() + b">")
+        out.append(b"<" + tn.encode() + b">" + (b"<a>" if tn == "XQ" else b"") + b"x" + f)          # the buffer ends inside / behind the reference
+    return out
+
+
 def nested_set_inputs(rng):
     """short UPER/OER inputs that steer each decoder of module WS into the SET component (and some that do not)"""
     fixed = ["80", "6000", "c0", "e0", "0180", "01ff", "0101ff", "8180", "818001ff", "80ff", "ff", "c04080", "8101ff", "80028000", "800201ff", "80010780018000",
@@ -421,6 +449,7 @@ def wide_layer(run, rng, tier):
             continue
         wmods.append(wm)
     wmods.append({"name": "WS", "text": NESTED_SET_TEXT, "defs": [(n, None) for n in re.findall(r"^\s*(\w+) ::=", NESTED_SET_TEXT, flags=re.M)]})
+    wmods.append({"name": "WX", "text": CHARREF_TEXT, "defs": [(n, None) for n in re.findall(r"^\s*(\w+) ::=", CHARREF_TEXT, flags=re.M)]})
     tlog("wide: generating and building %d modules" % nmod)
     build_modules(wmods, tag="wide", moddrv_extra=INC, extra_ldflags=WRAP)
     tlog("wide: built")
@@ -490,6 +519,14 @@ def wide_layer(run, rng, tier):
                             lines.append("d4 %s %s %s" % (tn, syn, hexs(data)))
                             metas.append({"tn": tn, "syn": syn, "kind": "random", "data": data, "orig": data})
                             run.count("wide_nested_set_input")
+        if m["name"] == "WX":
+            for tn, _ in m["defs"]:
+                for data in charref_inputs(tn):
+                    if (tn, "xer", data) not in seen:
+                        seen.add((tn, "xer", data))
+                        lines.append("d4 %s xer %s" % (tn, hexs(data)))
+                        metas.append({"tn": tn, "syn": "xer", "kind": "charref", "data": data, "orig": data})
+                        run.count("wide_charref_input")
         jobs.append((m, lines, metas))
     tlog("wide: %d mutant lines generated" % sum(len(j[1]) for j in jobs))
     cres = run_many([(m["exe"], lines) for m, lines, metas in jobs], per_chunk=40, timeout=(150 if tier == "quick" else 1500))
